@@ -372,7 +372,7 @@ impl<'a, Msg> Iterator for NetworkIter<'a, Msg> {
             }),
             NetworkIter::UnorderedNonDuplicating(active, it) => {
                 if let Some((env, count)) = active {
-                    // invariant: count > 1
+                    // invariant: count > 0
                     let env = *env; // to avoid holding a reference inside active
                     *count -= 1;
                     if *count == 0 {
@@ -387,23 +387,28 @@ impl<'a, Msg> Iterator for NetworkIter<'a, Msg> {
                         msg: &env.msg,
                     };
                     if *count > 1 {
-                        *active = Some((env, *count));
+                        // one copy is yielded now, the others on the following calls
+                        *active = Some((env, *count - 1));
                     }
                     env
                 })
             }
             NetworkIter::Ordered(active, it) => {
                 if let Some((src, dst, messages, index)) = active {
-                    let msg = messages.get(*index).unwrap(); // messages.len() > 1
-                    return Some(Envelope {
-                        src: *src,
-                        dst: *dst,
-                        msg,
-                    });
+                    let messages: &'a VecDeque<Msg> = messages;
+                    if let Some(msg) = messages.get(*index) {
+                        *index += 1;
+                        return Some(Envelope {
+                            src: *src,
+                            dst: *dst,
+                            msg,
+                        });
+                    }
                 }
+                // No active flow, or all of its messages were yielded: move to the next flow.
                 it.next().map(|(&(src, dst), messages)| {
-                    let msg = messages.front().unwrap(); // messages.len() > 1
-                    *active = Some((src, dst, messages, 0));
+                    let msg = messages.front().unwrap(); // flows are never empty
+                    *active = Some((src, dst, messages, 1));
                     Envelope { src, dst, msg }
                 })
             }
